@@ -22,7 +22,7 @@ def determine_indices_of_peaks_for_cleaned_array(values):
     peak_indices: array_like of int
         Array of indices of peaks
     """
-    diff = np.ediff1d(values, to_begin=0)
+    diff = np.ediff1d(np.asarray(values, dtype=float), to_begin=0)
     # if negative then direction has switched
     # direction_switch = np.insert(direction_switch, 0, 0)
     peak_indices = np.where(diff[1:] * diff[:-1] < 0)[0]
@@ -60,6 +60,7 @@ def determine_peak_only_delta_series_4_cleaned_data(values):
     :param values:
     :return:
     """
+    values = np.asarray(values, dtype=float)
     peak_indices = determine_indices_of_peaks_for_cleaned_array(values)
     peak_values = np.take(values, peak_indices)
     delta_peaks = np.diff(peak_values)
